@@ -78,7 +78,7 @@ def base_case(draw, tier, data_kind=None, depths=vs.DEPTHS_STREAM, min_chans=1, 
     gulp = draw(st.one_of(st.integers(1, eff + 3), st.integers(1, max(1, eff // 2))))
     return {"layout": lay, "start": start, "nsamps": nsamps, "gulp": gulp, "prior": draw(vs.prior_use(n)),
             "default_names": draw(st.sampled_from([False, False, True])), "np_ints": draw(st.sampled_from([False, False, False, True])),
-            "fch1": draw(st.sampled_from([1400.0, 800.0, 1500.5])), "foff": -draw(st.sampled_from([1.0, 4.0, 0.5, 10.0]))}
+            "fch1": draw(st.sampled_from([1400.0, 800.0, 1500.5])), "foff": draw(st.sampled_from([-1.0, -1.0, 1.0])) * draw(st.sampled_from([1.0, 4.0, 0.5, 10.0]))}  # either band orientation
 
 
 class Setup:
